@@ -2,10 +2,10 @@
 """Copies the validated seeded changes from the sub-agents' output area into /verif/seeded/<id>/ and writes meta.json
 (which property, what the change needs in order to manifest, what was run to confirm it, which checks detect it)."""
 import json, os, shutil, sys, glob
-SRCS = ["/tmp/seed/out", "/tmp/seed/out2", "/tmp/seed/out3"]
+SRCS = ["/tmp/seed/out", "/tmp/seed/out2", "/tmp/seed/out3", "/tmp/seed/out4"]
 DST = "/verif/seeded"
 os.makedirs(DST, exist_ok=True)
-for d in sorted(sum([glob.glob(S + "/C??/[abcde]") for S in SRCS], [])):
+for d in sorted(sum([glob.glob(S + "/C??/[abcdef]") for S in SRCS], [])):
     prop, x = d.split("/")[-2:]
     rp = os.path.join(d, "result.json")
     if not os.path.exists(rp) or not os.path.exists(os.path.join(d, "patch.diff")):
